@@ -5,8 +5,12 @@ from __future__ import annotations
 
 import base64
 
+import re
+
 from vf.gens import layers, netgen
 
+
+OPERATOR_LITERAL = re.compile(rb"""(["'])[\s_]*(?:&amp;|&|\+)[\s_]*\1""")
 
 WRAPS = [(b"CreateObject(", b")"), (b"createobject( ", b" )"), (b"x = CreateObject(", b") ;"),
          # two nested undecoded contexts, the outer one at a positive offset, and enough text after the blob inside the inner one
@@ -22,8 +26,19 @@ def rec_single(r, name, type_, label, blob, plain, delims=(b" ", b" "), value=No
         # inside an undecoded context at a positive offset (results get re-based by the engine there)
         wrap = r.choice(WRAPS)
         dl, dr = b" " + wrap[0], wrap[1] + b" "
-    if prefix.endswith(b" ") and dl == b" ":
+    glue = None
+    if wrap is None and delims == (b" ", b" ") and re.match(rb"[A-Za-z]{3,}\(", blob) and r.random() < 0.08:
+        # an undecoded indicator that ends INSIDE the expression (a path whose last component runs into the call name):
+        # the two overlap partially, so neither contains the other and both are results of the enclosing text
+        glue = r.choice([b"/usr/share/", b"./lib/scripts/", b"C:\\dir\\sub\\", b"\\\\host\\share\\", b"../aaa/"])
+        dl = b" " + glue
+    if prefix.endswith(b" ") and dl[:1] == b" ":
         prefix = prefix[:-1]
+    if r.random() < 0.07 and not OPERATOR_LITERAL.search(blob):
+        # (not next to a literal that is itself a bare joining operator - the property's own exclusion: the lone quote would
+        # pair with that literal's quote and chain unrelated text)
+        # a lone quote character earlier in the text (apostrophe, inch mark, comment marker) is neutral text too
+        prefix = r.choice([b"it's ", b'5" wide ', b"' comment\n", b'say " ', b"rock'n'roll ", b"'"]) + prefix
     suffix = netgen.neutral_text(r)
     if dr == b" " and not suffix:
         dr = b""
@@ -31,6 +46,9 @@ def rec_single(r, name, type_, label, blob, plain, delims=(b" ", b" "), value=No
            "layers": [{"name": name, "type": type_, "label": label, "plain": plain, "value": plain if value is None else value, "inner_off": 0}]}
     if wrap:
         rec["wrap"] = True
+    elif glue:
+        rec["wrap"] = True
+        rec["glue"] = True
     elif r.random() < 0.2:
         rec["decoy"] = True
     return rec
@@ -141,6 +159,8 @@ def c13_xor_case(r):
     key = r.choice([r.randrange(1000), r.randrange(256), r.randrange(1, 256)])
     form = r.choice(["b64", "hex", "bytes"])
     n = r.randint(10, 60) if form != "bytes" else r.randint(501, 600)
+    if r.random() < 0.04:
+        n = r.choice([4095, 4096, 4097, 9000, 70000]) if form != "bytes" else r.choice([4096, 5000])  # beyond any block size
     p = rand_payload(r, n)
     if r.random() < 0.3:
         p = bytes([key & 0xFF]) + p[1:]  # first byte equal to the key: leading zero in the result
